@@ -301,19 +301,26 @@ def gen_vocab_family(rng):
     return link_variant(rng, case, 0.6)
 
 
-def gen_multipacket_family(rng):
+def gen_multipacket_family(rng, single=False):
     """review escape 5: messages that need more than one datagram.  One host owns 2-6 services whose TXT records have 300-900 bytes
     (inside the property's 1..6 services) or 21-32 small services of one type (outside it: the size at which the library's answer to a
     browser no longer fits 1460 bytes).  A browser on a host that comes up after the announcements gets its answer as a train of
     packets (PTRs first, SRV / TXT / address records spilling into the next ones); the owner is then closed (ONE goodbye message for all
     its services = a train of packets, three times) or left running"""
     nh = rng.choice([2, 3, 3])
-    if rng.random() < 0.65:
+    if single:
+        # ONE service whose TXT alone exceeds a datagram, on a host nobody knows yet: its announcement is a train of packets and the
+        # order of the records in it decides what a browser that is already there holds when Added fires (seeded C07-w5-seed2)
+        nsvc = 1
+        svcs = [{"owner": 0, "ty": 0, "txt": rng.choice([1500, 2000, 3000])}]
+    elif rng.random() < 0.65:
         nsvc = rng.choice([2, 3, 4, 6])
         svcs = [{"owner": 0, "ty": 0, "txt": rng.choice([300, 600, 900, rng.randint(200, 900)])} for _ in range(nsvc)]
         if nsvc * 600 < 1500:
             svcs[0]["txt"] = 900
             svcs[1]["txt"] = 900
+        if rng.random() < 0.6:  # a TXT record that alone exceeds a datagram: the announcement itself is a train of packets
+            svcs[rng.randrange(nsvc)]["txt"] = rng.choice([1500, 2000, 3000])
     else:
         nsvc = rng.randint(21, 32)
         svcs = [{"owner": 0, "ty": 0} for _ in range(nsvc)]
@@ -323,7 +330,7 @@ def gen_multipacket_family(rng):
         ops.append([t, "register", i])
         t += rng.choice([1, 10, 10, 50])
     done = t + 350 + 450 + 100
-    ops.append([rng.choice([0, 100, done + 1200]), "browse", 1, 0])
+    ops.append([0 if single else rng.choice([0, 0, 100, done + 1200]), "browse", 1, 0])  # (mostly before the registrations: Added fires on the announcement)
     end = done
     if nh == 3:
         hosts[2]["up"] = done + rng.choice([300, 1500, 3000])
@@ -342,8 +349,8 @@ def gen_case(rng, idx=0, long_p=0.05):
         return gen_unreg_close_family(rng)
     if idx in (7, 8, 9) or (idx > 9 and rng.random() < 0.08):
         return gen_vocab_family(rng)
-    if idx in (10, 11) or (idx > 11 and rng.random() < 0.03):
-        return gen_multipacket_family(rng)
+    if idx in (10, 11, 12) or (idx > 12 and rng.random() < 0.03):
+        return gen_multipacket_family(rng, single=idx == 12 or (idx > 12 and rng.random() < 0.3))
     # the first scenarios of every run are long-horizon ones (cycling through the families), then each with probability long_p
     if idx < 6:
         c = [gen_flap_family, gen_late_browser_family, gen_mixed_ttl_family][idx % 3](rng)
@@ -1567,8 +1574,53 @@ def lookup_wrong_cause(case, obs, lk, vs, allv):
         held_txt = [(t, r) for (t, r) in records_seen(obs, bh, lk["t1"]) if isinstance(r, DNSText) and r.name.lower() == name]
         # the last TXT handed over decides (a goodbye or an expired one leaves the host without a TXT)
         if not held_txt or held_txt[-1][1].ttl == 0 or held_txt[-1][0] + 1000 * held_txt[-1][1].ttl <= lk["t1"]:
+            # F1's input class does NOT include an announcer that orders its own message so that a lookup completes before the TXT
+            # is there: in a broadcast of the service (SRV in the answer section) the TXT precedes the addresses of the SRV target, so
+            # that -- whatever `packets()` splits -- the datagram that completes {SRV, address} never precedes the TXT's datagram.
+            # When the host was handed the SRV and the address from such a message whose TXT sits in a LATER datagram, the empty
+            # TXT is the announcer's doing: a fresh violation (seeded defect C07-w5-seed2), not the known finding
+            why = announcement_completes_before_its_txt(case, obs, lk["s"], bh, lk["t1"])
+            if why:
+                return "announcement-completes-before-its-txt"
             return "success-without-txt"
     return ""
+
+
+def announcement_completes_before_its_txt(case, obs, s, host, t_hi):
+    """is there a broadcast message of service s (the response datagrams its owner multicast at one instant, SRV(s) in the ANSWER
+    section of one of them) in which the TXT of s sits in a later datagram than both the SRV and the first address record of the SRV
+    target, and of which the SRV and address datagrams had been handed to `host` by t_hi?  -> [send time, srv, addr, txt datagram] or None"""
+    from zeroconf import DNSIncoming
+    from zeroconf._dns import DNSAddress, DNSService, DNSText
+
+    name = svc_name(s, case["svcs"][s]["ty"]).lower()
+    owner = case["svcs"][s]["owner"]
+    got = {e[2] for e in obs["trace"] if e[1] == "dlv" and e[4] == host and e[0] <= t_hi}
+    trains = {}
+    for e in obs["trace"]:
+        if e[1] == "send" and e[2] == owner and e[4] is None and e[0] <= t_hi:
+            trains.setdefault((e[0], obs["datagrams"][e[3]][2]), []).append(e[3])
+    for (t, _grp), ds in sorted(trains.items()):
+        srv = adr = txt = None
+        target = None
+        in_answers = False
+        for d in sorted(ds):
+            m = DNSIncoming(bytes.fromhex(obs["datagrams"][d][4]))
+            if not m.valid or m.is_query():
+                continue
+            recs = m.answers()
+            for j, r in enumerate(recs):
+                if isinstance(r, DNSService) and r.name.lower() == name and r.ttl > 0 and srv is None:
+                    srv, target = d, r.server.lower()
+                    in_answers = j < m.num_answers
+                elif isinstance(r, DNSText) and r.name.lower() == name and txt is None:
+                    txt = d
+            for r in recs:
+                if isinstance(r, DNSAddress) and target is not None and r.name.lower() == target and adr is None:
+                    adr = d
+        if srv is not None and in_answers and adr is not None and (txt is None or txt > max(srv, adr)) and srv in got and adr in got:
+            return [t, srv, adr, txt]
+    return None
 
 
 def not_added_cause(case, obs, b, s):
@@ -1815,12 +1867,14 @@ def check_case(case, res, ctx, tag, lean_jobs, proj=False):
     # messages of more than one datagram (second review, escape 5): `full` is a per-datagram flag; a response that does not fit 1460
     # bytes cannot carry every PTR together with its SRV / TXT / address.  K6f and K4 witnesses are dropped when the packets the
     # host sent at the same instant to the same destination (one `async_send`) carry the missing records: complete per MESSAGE
-    if mon["K6f"] or mon["K4"]:
+    if mon["K6f"] or mon["K4"] or mon["K1"]:
         k6f = [w for w in mon["K6f"] if not train_complete(case, obs, w[1], w[2], w[3][2])]
         k4 = [w for w in mon["K4"] if not k4_answered_by_train(case, obs, tr, w)]
-        if len(k6f) != len(mon["K6f"]) or len(k4) != len(mon["K4"]):
+        # (an announcement of a service whose TXT exceeds a datagram is a train too: K1 witness [announcement-missing, t, off, s])
+        k1 = [w for w in mon["K1"] if not train_complete(case, obs, w[1] + w[2], w[3][0], w[3][2], None)]
+        if len(k6f) != len(mon["K6f"]) or len(k4) != len(mon["K4"]) or len(k1) != len(mon["K1"]):
             res.count("runs-with-multi-packet-messages(completeness judged per message)")
-            mon = dict(mon, K6f=k6f, K4=k4)
+            mon = dict(mon, K6f=k6f, K4=k4, K1=k1)
     if case.get("listen") or case.get("stack", "4") == "46":
         # a host with two receiving sockets has two listener objects, each with its own duplicate-packet guard: whether a delivery is
         # PROCESSED depends on the socket it arrives on, which the link model (one receive path per host; an ignored verbatim repeat is
